@@ -36,6 +36,7 @@ func main() {
 	goarch := flag.String("goarch", "amd64", "GOARCH to analyse")
 	list := flag.Bool("list", false, "list properties")
 	dump := flag.String("dump", "", "development aid: rel/pkg:Func — print the traces of a function")
+	listFuncs := flag.Bool("list-funcs", false, "development aid: print every source function of the module (input of tools/knownfuncs.py)")
 	ov := overlayFlag{}
 	flag.Var(ov, "overlay", "repo-relative-file=replacement-file (in-memory mutant; development aid)")
 	flag.Parse()
@@ -53,6 +54,10 @@ func main() {
 		for _, id := range ids {
 			fmt.Println(id, registry[id].Patterns)
 		}
+		return
+	}
+	if *listFuncs {
+		doListFuncs(*repo, *verif)
 		return
 	}
 	if *dump != "" {
@@ -216,5 +221,21 @@ func doDump(spec, repo, verif string) {
 		for j, e := range t.Events {
 			fmt.Printf("  %3d %s%s  @%s\n", j, strings.Repeat(" ", e.Depth), e, c.posStr(e.Pos))
 		}
+	}
+}
+
+// doListFuncs prints "pkgpath\tname" for every source function of the module (methods as Type.Method).
+func doListFuncs(repo, verif string) {
+	p := &Property{ID: "LIST", Patterns: []string{"./..."}}
+	c := &Ctx{Prop: p, Tier: "quick", RepoDir: repo, VerifDir: verif, oblIdx: map[string]*Obligation{}, Stats: map[string]int{}, Tables: map[string]interface{}{}, GOARCH: "amd64", Fset: token.NewFileSet()}
+	if err := c.load(nil); err != nil {
+		fmt.Println("FATAL:", err)
+		return
+	}
+	for _, fn := range c.allSourceFuncs() {
+		if fn.Parent() != nil {
+			continue
+		}
+		fmt.Printf("%s\t%s\n", fn.Pkg.Pkg.Path(), helperName(fn))
 	}
 }
